@@ -1277,3 +1277,24 @@ def requeue_order_cases(prefix="rq"):
                 cases.append(("%s%d" % (prefix, n), ops))
                 n += 1
     return cases
+
+
+def create_delete_race_cases(ks=range(0, 14), prefix="cdr"):
+    """CreateSubscription of a fresh name and DeleteSubscription of that name in flight together (the delete is
+    started k scheduler turns after the create and tried three times in a row), next to a subscription that stays.
+    Whichever way the server orders them, once both have returned the topic must list exactly the subscriptions that
+    exist, and a Publish must go through."""
+    T, Kept, Racy = hx(tname("p", "t")), hx(sname("p", "kept")), hx(sname("p", "racy"))
+    cases = []
+    for k in ks:
+        for variant in range(2):
+            ops = ["SEED %d" % (k + 20 * variant), "CT " + T, "CS %s %s 10 ~" % (Kept, T)]
+            for r in range(3):
+                ops += ["BG %d CS %s %s 10 ~" % (900 + 2 * r, Racy, T), "YIELD %d" % k,
+                        "BG %d SEQ DS %s ;; DS %s ;; DS %s" % (901 + 2 * r, Racy, Racy, Racy), "Q",
+                        "JOIN %d" % (900 + 2 * r), "JOIN %d" % (901 + 2 * r),
+                        "GS " + Racy, "GS " + Kept, "LTS %s 0 -" % T, "PUB %s 1 61 0" % T, "PULL %s 10 1" % Kept]
+                if variant:
+                    ops += ["DS " + Racy]
+            cases.append(("%s-k%d-v%d" % (prefix, k, variant), ops))
+    return cases
